@@ -59,8 +59,37 @@ let cmd_prep line =
     Printf.sprintf "%d:%d:%s" (int_of_n (tk_index k)) (int_of_n len)
       (match e with None -> "-" | Some e -> us (ocaml_string (any_err_msg e)))) (prep_text t))
 
+(* parse: tree as  ( k child.. )  /  [ k bytelen ]  then " | " then errors lo:hi:msg ; then " | nlex nstart" *)
+let msg_string (m : parse_msg) : ostring =
+  match m with
+  | MLit s -> ocaml_string s
+  | MExpected k -> "expected " ^ ocaml_string (tk_name k)
+  | MTok e -> ocaml_string (any_err_msg e)
+let rec tree_string (b : Buffer.t) (t : tree) : unit =
+  match t with
+  | Tok (k, txt) -> Buffer.add_string b (Printf.sprintf "[ %d %d ] " (int_of_n (sk_index k)) (int_of_n (bytes txt)))
+  | Node (k, cs) ->
+      Buffer.add_string b (Printf.sprintf "( %d " (int_of_n (sk_index k)));
+      List.iter (tree_string b) cs;
+      Buffer.add_string b ") "
+let big_fuel = nat_of_int 1000000
+let cmd_parse line =
+  let t = text_of_line line in
+  match parse_with big_fuel grammar_prog grammar_entry t with
+  | ParseOk (tr, errs, st) ->
+      let b = Buffer.create 1024 in
+      tree_string b tr;
+      Buffer.add_string b "| ";
+      List.iter (fun ((lo, hi), m) ->
+        Buffer.add_string b (Printf.sprintf "%d:%d:%s " (int_of_n lo) (int_of_n hi) (us (msg_string m)))) errs;
+      Buffer.add_string b (Printf.sprintf "| %d %d" (int_of_n st.nlex) (int_of_n st.nstart));
+      Buffer.contents b
+  | ParsePanic -> "PANIC"
+  | ParseOOF -> "OOF"
+
 let () =
   match Sys.argv with
   | [| _; "lex" |] -> each_line cmd_lex
+  | [| _; "parse" |] -> each_line cmd_parse
   | [| _; "prep" |] -> each_line cmd_prep
   | _ -> prerr_endline "usage: modelrun <cmd>"; exit 2
